@@ -27,6 +27,7 @@ LISTS = "pacti/utils/lists.py"
 CPD = "pacti/iocontract/compundiocontract.py"
 PIC = "pacti/contracts/polyhedral_iocontract.py"
 FIO = "pacti/utils/fileio.py"
+PLOTS = "pacti/utils/plots.py"
 
 # (name, file, old, new, [properties expected to report a VIOLATION], [properties that must stay quiet])
 MUTANTS = [
@@ -89,6 +90,15 @@ MUTANTS = [
     ("geq-as-leq", SER, "        minus_a_plus_b: PolyhedralSyntaxAbsoluteTermList = a.negate().add(b)", "        minus_a_plus_b: PolyhedralSyntaxAbsoluteTermList = a.add(b.negate())", ["C09"], []),
     ("convex-check-skipped", SER, "        _check_absolute_terms(str_rep, a_minus_b.absolute_term_list)", "        pass", ["C09"], []),
     ("paren-factor-skips-constant", GRAM, "    pt.constant *= f\n    for k in pt.factors:", "    for k in pt.factors:", ["C09"], []),
+    ("plots-lower-limit-sign", PLOTS, "constraints.append(PolyhedralTerm({x_var: -1}, -x_lims[0]))", "constraints.append(PolyhedralTerm({x_var: -1}, x_lims[0]))", ["C18"], []),
+    ("plots-column-swap-dropped", PLOTS, "if variables[0] == y_var:", "if False:", ["C18"], []),
+    ("plots-substitute-sign", PLOTS, "subst_with_term=PolyhedralTerm(variables={}, constant=-val)", "subst_with_term=PolyhedralTerm(variables={}, constant=val)", ["C18"], []),
+    ("plots-zero-row-refused", PLOTS, "if term.constant < 0:", "if term.constant <= 0:", ["C18"], []),
+    ("plots-unsorted", PLOTS, "points = sorted(zip(x, y), key=lambda p: atan2(p[1] - center[1], p[0] - center[0]))", "points = list(zip(x, y))", ["C18"], []),
+    ("plots-sorted-clockwise", PLOTS, "points = sorted(zip(x, y), key=lambda p: atan2(p[1] - center[1], p[0] - center[0]))", "points = sorted(zip(x, y), key=lambda p: atan2(p[1] - center[1], p[0] - center[0]), reverse=True)", [], ["C18"]),
+    ("plots-fallback-two-directions", PLOTS, "x = (p1[0], p2[0], p3[0], p4[0])\n        y = (p1[1], p2[1], p3[1], p4[1])", "x = (p1[0], p2[0])\n        y = (p1[1], p2[1])", ["C18"], []),
+    ("plots-infeasible-status-ignored", PLOTS, 'if res["status"] == 2:\n        raise ValueError("Constraints are unfeasible")', "pass", ["C18"], []),
+    ("plots-y-limits-swapped", PLOTS, "constraints.append(PolyhedralTerm({y_var: 1}, y_lims[1]))", "constraints.append(PolyhedralTerm({y_var: 1}, x_lims[1]))", ["C18"], []),
 ]
 
 
